@@ -134,7 +134,7 @@ def handleC05 (j : Json) : Except String Json := do
   | "take_while_indexed" => pure (go (takeWhileIndexedOp (pred2 (← getFn j "p")) (← getBool j "inclusive")) idv idv)
   | "skip_while" => pure (go (skipWhileOp (pred1 (← getFn j "p"))) idv idv)
   | "skip_while_indexed" => pure (go (skipWhileIndexedOp (pred2 (← getFn j "p"))) idv idv)
-  | "distinct" => pure (go (distinctOp (keyFn (← getFnOpt j "key")) (pyEqCmp (← getFnOpt j "cmp"))) idv idv)
+  | "distinct" => pure (go (distinctOp (keyFn (← getFnOpt j "key")) (pyEqCmpE (← getFnOpt j "cmp"))) idv idv)
   | "distinct_until_changed" =>
     pure (go (distinctUntilChangedOp (keyFn (← getFnOpt j "key")) (pyEqCmpE (← getFnOpt j "cmp"))) idv idv)
   | "pairwise" => pure (go (pairwiseOp (α := Val)) idv (fun p => .tup [p.1, p.2]))
@@ -197,7 +197,8 @@ def handleSlice (j : Json) : Except String Json := do
       ("pipe", .arr (vis.map notifToJson).toArray),
       ("stages", .arr (stages.map (fun s => Json.str s.name)).toArray),
       ("eval", .arr (ev.map valToJson).toArray),
-      ("py", .arr ((Slice.pySlice xs start stop (step.getD 1)).map valToJson).toArray)])
+      ("py", .arr ((Slice.pySlice xs start stop (step.getD 1)).map valToJson).toArray),
+      ("pyidx", .arr ((Slice.pySliceIdx xs start stop (step.getD 1)).map valToJson).toArray)])
 
 def handle (op : String) (j : Json) : Except String Json := do
   match op with
